@@ -15,6 +15,7 @@ import (
 
 	"verif/internal/corpus"
 	"verif/internal/gram"
+	"verif/internal/harness"
 	"verif/internal/report"
 )
 
@@ -125,7 +126,17 @@ func c09(c *ctx) {
 			cmd.Env = env
 			var so, se bytes.Buffer
 			cmd.Stdout, cmd.Stderr = &so, &se
-			err := cmd.Run()
+			memMB := harness.DefaultMemMB
+			if j.race {
+				memMB *= 3
+			}
+			guard, err := harness.RunGuarded(cmd, memMB, 0)
+			if guard.MemKilled {
+				se.WriteString(fmt.Sprintf("\nverif: peg exceeded the memory limit of %d MB and was killed (runaway allocation?)\n", memMB))
+			}
+			if guard.ExternalKill(0) {
+				externalKills.Add(1)
+			}
 			gr := genRun{stdout: shaHex(so.Bytes()), stderr: se.String()}
 			if err != nil {
 				gr.exit = -1
@@ -254,6 +265,9 @@ func c09(c *ctx) {
 	concReq := []feReq{{Conc: subs, Gor: 16, Reps: tierN(c, 2, 6)}, {Conc: subs[:len(subs)/2], Gor: 4, Reps: tierN(c, 2, 8)}}
 	concRes := fe.run(concReq)
 	for qi, cr := range concRes {
+		if cr.Lost && fe.ExternalKills > 0 {
+			continue // killed from outside: inconclusive (recorded by the front-end runner)
+		}
 		if cr.Fatal != "" || cr.Lost {
 			c.run.Violate("conc-fatal", "front-end driver died during concurrent Compile calls: "+firstLine(cr.Fatal), map[string]any{"stderr": cr.Fatal})
 			continue
